@@ -1,4 +1,5 @@
 import HappyProofs.C01.Props
+import HappyProofs.C01.TraceGate
 import HappyModel.C01.Parse
 /-!
 # C01 — "target not crashed" is judged when the event falls due, not when it is scheduled
@@ -90,5 +91,41 @@ example :
     let s := run procMachine (some 20) 10 (crashWindowProg.initState true)
     s.log.map (fun e => (e.time, e.target, e.kind)) = [(5, 1, 1), (6, 1, 2), (8, 1, 3), (10, 0, 8)] ∧
     s.processed = 5 := by decide
+
+/-! ### the process machine is a model with a crash gate -/
+
+/-- `entity._crashed` of the scripted entities: the gate of `procMachine` consults it for the target of
+    the popped event (`procCrashed`) -/
+def procGate : GateModel procMachine :=
+  { down := fun ps x => ps.crashed.contains x, support := fun ps => ps.crashed,
+    supp := by intro ps x h; simpa using h,
+    sound := by
+      intro ps e h
+      have h' : procCrashed ps e = true := h
+      unfold procCrashed at h'
+      simp only [Bool.and_eq_true] at h'
+      exact h'.1 }
+
+/-- **the trace of a program run satisfies the trace Spec** — every handler table, every pre-run
+    schedule, every end time: on a finished run of the process machine (generator processes, futures,
+    hooks, crash / restore actions; all entities up at the start) the judge accepts the trace the model
+    writes, with one `C` / `U` line for each entity whose flag a delivery changed; with no end time
+    clause 7 can at most report the known lazy-deletion grade. -/
+theorem process_trace_satisfies_spec (ps : PS) (hup : ps.crashed = []) (pre : List Spec) (endT : Option Nat) (n : Nat)
+    (hhalt : step procMachine endT (runFrom procMachine ps 0 pre endT n) = none)
+    (hlen : (traceOf procGate.flags procMachine ps 0 pre endT n).len < 1000000000) :
+    Spec.judge (traceOf procGate.flags procMachine ps 0 pre endT n) = none ∨
+    (endT = none ∧ Spec.judge (traceOf procGate.flags procMachine ps 0 pre endT n)
+        = some "engine/autoterm/ran-with-no-primary-pending") :=
+  engine_trace_satisfies_spec_gate procGate ps 0 pre endT n (by intro x; simp [procGate, hup]) hhalt hlen
+
+-- non-vacuity: the crash-window program above, as a trace: one `C` and one `U` line for entity 0, the event
+-- due at 7 dropped at the gate, the one due at 10 delivered, the judge accepts
+example :
+    let s0 := crashWindowProg.initState true
+    let pre := crashWindowProg.pre.map (·.1)
+    step procMachine (some 20) (runFrom procMachine s0.ent 0 pre (some 20) 20) = none ∧
+    (traceOf procGate.flags procMachine s0.ent 0 pre (some 20) 20).flags.map (fun f => (f.1, f.2.1)) = [(0, true), (0, false)] ∧
+    Spec.judge (traceOf procGate.flags procMachine s0.ent 0 pre (some 20) 20) = none := by decide
 
 end HappyModel.C01
